@@ -14,6 +14,16 @@ CHECKS["C01"] = dict(
    text="Theorems C01_cow_call_writes_no_existing_cell / C01_deepcopy_writes_no_existing_cell / C01_core_respects_watermark are proved in Coq for every class table without do_not_copy=True classes (frozen included), every heap, receiver, helper, argument vector (valid or not), every outcome (return or exception) and every callback failure point: a call without _inplace=True writes no heap cell that existed before it. The model (coq/Inst/Model.v, ~1000 lines following mutation.py / core.py / scalar.py / toplevel.py / collections/*.py branch by branch) is tied to /repo on every run: generated class tables and operation histories are executed by model and implementation, and the canonical object graph (content and sharing) of all live roots is compared after every operation; the C01 oracle (pre-existing graph unchanged after a copy-on-write call) is evaluated in Coq on the implementation's own observations.",
    note="Trusted: Coq kernel + vm_compute; hand-written model and Python container/deepcopy/attribute semantics (validated by correspondence only); harness graph canonicaliser; callback purity contract. Crash points covered: user-callback failures at their 1st..3rd invocation (any invocation in the theorem); line-level injection inside library code is not modelled (theorem covers callback failure points and every error the model can raise). KeyedList/KeyedSet-typed attributes, masked attributes and do_not_copy=True classes are outside the model.",
    design="4 C01")
+CHECKS["C04"] = dict(
+   technique="Coq proof (frame theorem: every constructor call, copy-on-write call and deepcopy, and every in-place operation on a frozen instance, writes no pre-existing heap cell whatever the outcome; the full statement is refuted for multi-keyword in-place update/transform and recorded as a known finding) + differential correspondence with failure injection, evaluated by vm_compute",
+   text="C04_atomic_partial_cow_and_constructors, C04_atomic_partial_frozen_inplace and C04_constructor_result_is_fresh are proved for every class table (no do_not_copy=True classes), heap, argument vector, callback failure point and error. The full statement (every operation, including _inplace=True on non-frozen receivers) is false of the code: C04_multi_keyword_inplace_update_refuted exhibits update(_inplace=True, a=ok, b=bad) committing a before failing on b (open finding). In-place operations on non-frozen receivers are decided by the correspondence (model = implementation on canonical object graphs after every operation, ~60% of generated operations failing: ill-typed values at every position, missing index/key/element, unknown keywords, callbacks raising at their 1st..3rd invocation) and the C04 oracle evaluated in Coq on the implementation's own observations (pre-existing graph unchanged after an exception).",
+   note="Trusted: Coq kernel + vm_compute; hand-written model (validated by correspondence); harness canonicaliser; callback purity. Partial: in-place operations on non-frozen instances are not covered by a theorem. Known findings: KNOWN_FINDINGS.json (multi-keyword in-place update/transform).",
+   design="4 C04")
+CHECKS["C07"] = dict(
+   technique="Coq proof (every in-place operation on a frozen instance writes no pre-existing cell and deletion raises FrozenInstanceError; copy-on-write calls on frozen instances write no pre-existing cell) + differential correspondence incl. frozen/non-frozen twin runs of the implementation",
+   text="C07_inplace_operation_on_frozen_instance_writes_nothing (assignment, deletion, every helper with _inplace=True: no pre-existing heap cell is written, for every class table, heap, arguments and outcome), C07_delete_on_frozen_instance_raises_FrozenInstanceError, C07_write_reaching_the_frozen_guard_raises and C07_cow_call_on_frozen_instance_writes_nothing are proved in Coq over the instance model. The model is tied to /repo on every run (canonical object graphs after every operation on generated frozen class tables); the C07 oracle (a frozen instance never changes; copy-on-write calls leave it untouched) is evaluated in Coq on the implementation's observations; the twin relation (same copy-on-write history on the class with the frozen flag cleared gives the same object graphs) is checked implementation against implementation.",
+   note="Trusted: Coq kernel + vm_compute; hand-written model; harness. Partial: the twin simulation is validated, not proved. Interpretation: argument-validation errors may pre-empt FrozenInstanceError; no-op calls (_if=False, UNCHANGED) do not raise; update(_new_value, _inplace=True) replaces the receiver by another object and is outside the theorem.",
+   design="4 C07")
 NOT_YET = {}
 def load_fragments():
     import glob
